@@ -59,6 +59,7 @@ BASES = [
     [["Select", "lambda e: -e.x"], ["Select", "lambda v: v * 1.0"]],
     [["Select", "lambda e: e.name == 'mu'"]],
     [["SelectMany", "lambda e: e.jets.Select(lambda j: (j.pt, e.x))"], ["Where", "lambda p: p[0] > p[1]"]],
+    [["Select", "lambda e: e.tracks('\u03bc+', 'caf\u00e9')"], ["Where", "lambda t: t.q != 'e\u2212'"]],
 ]
 IMPORTS = ["func_adl", "func_adl.ast", "func_adl.ast.ast_hash", "func_adl.ast.function_simplifier",
            "func_adl.type_based_replacement", "func_adl.util_ast", "func_adl.object_stream",
@@ -91,6 +92,9 @@ class _Edit(ast.NodeTransformer):
             hit = ast.Constant(n.value + 1)
         elif k == "const_value" and isinstance(n, ast.Constant) and isinstance(n.value, str):
             hit = ast.Constant(n.value + "x")
+        elif k == "unicode" and isinstance(n, ast.Constant) and isinstance(n.value, str) and any(ord(c) > 127 for c in n.value):
+            # another character outside ASCII (and, where it was one, outside Latin-1)
+            hit = ast.Constant("".join((chr(ord(c) + 1) if ord(c) > 127 else c) for c in n.value))
         elif k == "const_type" and isinstance(n, ast.Constant) and type(n.value) is int:
             hit = ast.Constant(float(n.value)) if self.target % 3 == 0 else (
                 ast.Constant(str(n.value)) if self.target % 3 == 1 else ast.Constant(bool(n.value)))
@@ -131,7 +135,7 @@ class _Edit(ast.NodeTransformer):
 
 
 EDITS = ["operator", "name", "const_value", "const_type", "arg_order", "nesting_add",
-         "nesting_remove", "wrap", "param", "stage_op", "drop_stage", "dup_stage"]
+         "nesting_remove", "wrap", "param", "stage_op", "drop_stage", "dup_stage", "unicode"]
 
 
 def edit_lambda(text, kind, r):
@@ -286,6 +290,10 @@ def execute(case):
             if "error" in r:
                 stat("build_errors")
                 events.append(f"{b['id']}|error")
+                if r.get("stage") == "hash" and viol is None:
+                    viol = {"class": "C20/no-hash", "detail": {"kind": "calc_ast_hash raised",
+                                                                "error": r["error"][:200],
+                                                                "build": _brief(b)}}
                 continue
             meta = {**b, "node": ni}
             results.append((meta, r["hash"], r["canon"]))
@@ -414,3 +422,8 @@ def op_simplifications(op):
 
 def signature(case, viol):
     return f"{viol['class']} :: {viol['detail'].get('kind')}"
+
+
+def case_simplifications(case):
+    "Drop whole nodes' worth of builds that are not needed."
+    return []
